@@ -317,7 +317,7 @@ func tagsIrregular(kv [][2]string) bool {
 	seen := map[string]bool{}
 	for _, p := range kv {
 		k := strings.TrimSpace(p[0])
-		if seen[k] || k != p[0] || strings.TrimSpace(p[1]) != p[1] {
+		if seen[k] || k != p[0] || strings.TrimSpace(p[1]) != p[1] || k == "" || strings.TrimSpace(p[1]) == "" {
 			return true
 		}
 		seen[k] = true
@@ -487,7 +487,20 @@ func gen(r *rand.Rand, idx int, tier string) Input {
 				continue
 			}
 			used[k] = true
-			in.TagKV = append(in.TagKV, [2]string{sp(k), sp(lib.Pick(r, tagVals))})
+			v := lib.Pick(r, tagVals)
+			empty := false
+			if lib.Chance(r, 0.15) { // a tag with an EMPTY value ("env="), or with an empty key ("=x")
+				if lib.Chance(r, 0.7) {
+					v = ""
+				} else {
+					k = ""
+				}
+				empty = true
+			}
+			in.TagKV = append(in.TagKV, [2]string{sp(k), sp(v)})
+			if empty && lib.Chance(r, 0.8) { // ... followed by another, ordinary tag
+				in.TagKV = append(in.TagKV, [2]string{lib.Pick(r, []string{"host", "zone", "az"}), lib.Pick(r, []string{"h1", "eu-1", "b"})})
+			}
 		}
 		if pad && lib.Chance(r, 0.5) {
 			in.AppX += lib.Pick(r, []string{" ", "  "})
@@ -502,7 +515,7 @@ func gen(r *rand.Rand, idx int, tier string) Input {
 				Meta:  Meta{Spy: lib.Pick(r, spies), Rate: lib.Pick(r, rates), Units: lib.Pick(r, unitsL), Agg: lib.Pick(r, aggs)},
 				Stack: append([]byte(fmt.Sprintf("job%d;", i)), trieu.RandKey(r, 2, 8)...), V: uint64(1000 + i)}
 			if lib.Chance(r, 0.4) {
-				j.Suffix += "{" + lib.Pick(r, tagKeys) + "=" + lib.Pick(r, tagVals) + "}"
+				j.Suffix += "{" + lib.Pick(r, tagKeys) + "=" + lib.Pick(r, append([]string{"", ""}, tagVals...)) + ",host=" + lib.Pick(r, []string{"h1", "h2"}) + "}"
 			}
 			b.Jobs = append(b.Jobs, j)
 		}
